@@ -528,8 +528,132 @@ pub fn k_resume_f6_c3<N: Nd>(nd: &mut N) {
     k_resume::<N, 6, 3>(nd)
 }
 
-// not registered: the solver exhausts its memory limit on this kernel (growth -> realloc inside the refill loop)
-#[cfg(not(kani))]
-pub fn registry3() -> Vec<(&'static str, fn(&mut crate::nd::TapeNd))> {
-    vec![]
+// k_resume is not registered: the solver exhausts its memory limit on it (symbolic choice between
+// compaction and growth with symbolic offsets into the moved buffer).  The instances below enumerate
+// the geometry concretely around the solver call and keep the bytes symbolic.
+
+/// one concrete geometry: group start `p` in a full buffer of capacity CAP, file length `n`, first
+/// read of the refill delivering `c1` bytes (0 = as much as fits); `grow`: the group is the first
+/// one in the buffer (p == 0) and the policy grants 2*CAP, otherwise the policy refuses growth
+fn resume_at<N: Nd, const F: usize, const CAP: usize>(nd: &mut N, file: &[u8; F], make_room: bool, p: usize, n: usize, c1: usize, grow: bool) {
+    use crate::c09::RecPolicy;
+    let f = &file[..n];
+    let g = fq_group(f, p);
+    let v = fq_verdict_g(f, p, &g);
+    let lfs_in = count_lf(f, p, CAP);
+    // the group is not complete inside the first window (that is why the search is resumed)
+    nd.assume(lfs_in < 4);
+    let st = FqState {
+        pos0: p,
+        pos1: 0,
+        seq: if lfs_in >= 1 { g.starts[1] } else { 0 },
+        sep: if lfs_in >= 2 { g.starts[2] } else { 0 },
+        qual: if lfs_in >= 3 { g.starts[3] } else { 0 },
+        inc: 0,
+        line: 1,
+        byte: p as u64,
+        state: 1,
+    };
+    let mut src = Src::<F>::plain(*file, n);
+    src.chunk[1] = c1;
+    let br = window::<F>(src, CAP, 0);
+    let pol = RecPolicy { answer: if grow { Some(2 * CAP) } else { None }, asked: 0, n: 0 };
+    let mut r = fastq::Reader::verif_from_parts(br, pol, fastq::VerifBufPos::new(st.pos0, st.pos1, st.seq, st.sep, st.qual), st.inc, st.line, st.byte, st.state);
+    let res = r.verif_resume_incomplete_search((lfs_in + 1) as u8, make_room);
+    let newcap = if grow { 2 * CAP } else { CAP };
+    // the window after compaction / growth and a complete refill
+    let wend = if p + newcap < n { p + newcap } else { n };
+    let complete_in = g.lfs == 4 && g.ends[3] < wend;
+    let eof_seen = n - p < newcap;
+    let failed = match &res {
+        Ok(true) => !(complete_in || eof_seen) || !v.record,
+        Ok(false) => !(v.end && eof_seen && !complete_in),
+        Err(_) => false,
+    };
+    if failed {
+        nd.note_num("record_start", p as u64);
+        nd.note_num("n", n as u64);
+        nd.note_num("first_chunk", c1 as u64);
+    }
+    match res {
+        Ok(true) => {
+            vassert!(complete_in || eof_seen, "C02 a record is returned only when its four lines are in the buffer or the input ended");
+            let rec = r.verif_current_record();
+            check_record(&rec, f, &g, &v);
+            let b = r.verif_buf_reader().buffer();
+            vassert!(b.len() == wend - p, "C03 the refill reads until the buffer is full or the input ends");
+            vassert!(r.verif_buf_reader().capacity() == newcap, "C09 the capacity is the one the policy granted");
+            if g.lfs < 4 {
+                vassert!(r.verif_state() == 3, "C20 after the last record (no terminator) the reader is finished");
+            }
+            cover!(g.lfs == 4 && c1 == 1, "record completed by a refill in several reads");
+            cover!(g.lfs == 3, "last record without terminator after a refill");
+        }
+        Ok(false) => {
+            vassert!(!complete_in, "C02 a complete group in the buffer is not skipped");
+            vassert!(eof_seen, "C02 the end of the input is only reported once the source is exhausted");
+            vassert!(v.end, "C02 end of input only when no further group (or a blank tail) remains");
+            vassert!(r.verif_state() == 3, "C20 once the end of input was reported the reader is finished");
+            cover!(true, "blank tail after a refill");
+        }
+        Err(fastq::Error::BufferLimit) => {
+            vassert!(!grow, "C09 no buffer-limit error while the policy grants growth");
+            vassert!(!complete_in && !eof_seen, "C02 no buffer-limit error when the group fits after compaction or the input ended");
+            vassert!(r.verif_state() == 3, "C14 a refused growth is terminal");
+            cover!(true, "growth refused");
+        }
+        Err(e) => {
+            vassert!(complete_in || eof_seen, "C02 a format error is reported only for a group that is completely visible");
+            check_error(&e, f, p, 1, &g, &v);
+            vassert!(r.verif_state() == 3, "C02 a format error is terminal");
+            std::mem::forget(e);
+        }
+    }
+    std::mem::forget(r);
+}
+
+/// K: `resume_incomplete_search(make_room = true)` for an unfinished group that is not the first one
+/// in a full buffer, policy refusing growth (compaction, complete refill after a short first read,
+/// resumed search, end of input); group start, file length and first read size symbolic
+pub fn k_resume_compact<N: Nd, const F: usize, const CAP: usize>(nd: &mut N) {
+    let file: [u8; F] = any_file::<N, F>(nd);
+    let n = nd.usize_in(CAP, F);
+    let p = nd.usize_in(1, CAP - 1);
+    let c1 = nd.usize_in(0, CAP - 1);
+    nd.note("format", b"fastq");
+    nd.note("file", &file[p..n]);
+    nd.note_num("cap", CAP as u64);
+    nd.note_num("first_chunk", c1 as u64);
+    resume_at::<N, F, CAP>(nd, &file, true, p, n, c1, false);
+}
+
+/// K: `resume_incomplete_search` for an unfinished first group in a full buffer, the policy granting
+/// 2*CAP (files shorter than the grown buffer): growth, complete refill, resumed search, end of input
+pub fn k_resume_grow<N: Nd, const F: usize, const CAP: usize>(nd: &mut N) {
+    let file: [u8; F] = any_file::<N, F>(nd);
+    let n = nd.usize_in(CAP, F);
+    let c1 = nd.usize_in(0, CAP);
+    let make_room = nd.bool();
+    nd.note("format", b"fastq");
+    nd.note("file", &file[..n]);
+    nd.note_num("cap", CAP as u64);
+    nd.note_num("first_chunk", c1 as u64);
+    resume_at::<N, F, CAP>(nd, &file, make_room, 0, n, c1, true);
+}
+
+pub fn k_resume_compact_f7_c4<N: Nd>(nd: &mut N) {
+    k_resume_compact::<N, 7, 4>(nd)
+}
+pub fn k_resume_grow_f7_c4<N: Nd>(nd: &mut N) {
+    k_resume_grow::<N, 7, 4>(nd)
+}
+
+harnesses! {
+    @reg registry3;
+    /// @meta props=X00 tier=pilot kind=K stage2=pub timeout=3600 mem=44 unwind=10 unwindset="_resume_incomplete_search:2;seq_io::fill_buf:6" bounds="fastq::Reader::resume_incomplete_search(make_room) for an unfinished group at every start 1..3 of a full buffer of capacity 4 over every file <= 7 bytes, first refill read of 1..3 bytes or complete; policy refusing growth"
+    #[kani::stub(std::string::String::from_utf8_lossy, crate::src::stub_lossy_empty)]
+    fqk_resume_compact_f7_c4 => k_resume_compact_f7_c4;
+    /// @meta props=X00 tier=pilot kind=K stage2=pub timeout=3600 mem=44 unwind=10 unwindset="_resume_incomplete_search:2;seq_io::fill_buf:7" bounds="fastq::Reader::resume_incomplete_search for an unfinished first group in a full buffer of capacity 4 over every file <= 7 bytes, first read after the growth of 1..4 bytes or complete, policy granting capacity 8"
+    #[kani::stub(std::string::String::from_utf8_lossy, crate::src::stub_lossy_empty)]
+    fqk_resume_grow_f7_c4 => k_resume_grow_f7_c4;
 }
